@@ -6,15 +6,106 @@
 package main
 
 import (
+	"bytes"
 	"flag"
 	"fmt"
 	"go/ast"
 	"go/parser"
+	"go/printer"
 	"go/token"
 	"os"
 	"path/filepath"
 	"strings"
 )
+
+func src(fs *token.FileSet, n ast.Node) string {
+	var b bytes.Buffer
+	if err := printer.Fprint(&b, fs, n); err != nil {
+		die("cannot print node: %v", err)
+	}
+	return strings.Join(strings.Fields(b.String()), " ")
+}
+
+// transformFacts: the function literal handed to utils.TransformWithContext inside method `name` of
+// shard.go turns one element of a write batch into an IndexPointChange. Facts: the conditions under which
+// it sets `skip = true` (the element is withheld from EVERY index), in source order, and the fields of the
+// change it assigns (`ipc.X = …`), in source order.
+func transformFacts(fs *token.FileSet, f *ast.File, name string) (skips, fields []string) {
+	fd := funcDecl(f, name)
+	if fd == nil {
+		die("func %s not found in shard.go", name)
+	}
+	var lit *ast.FuncLit
+	ast.Inspect(fd.Body, func(n ast.Node) bool {
+		c, ok := n.(*ast.CallExpr)
+		if !ok || lit != nil {
+			return true
+		}
+		if s := sel(c.Fun); s == "TransformWithContext" || strings.HasSuffix(s, ".TransformWithContext") {
+			for _, a := range c.Args {
+				if fl, ok := a.(*ast.FuncLit); ok {
+					lit = fl
+				}
+			}
+		}
+		return true
+	})
+	if lit == nil {
+		die("%s: no function literal passed to TransformWithContext", name)
+	}
+	isSkip := func(st ast.Stmt) bool {
+		as, ok := st.(*ast.AssignStmt)
+		if !ok || len(as.Lhs) != 1 || len(as.Rhs) != 1 {
+			return false
+		}
+		l, ok1 := as.Lhs[0].(*ast.Ident)
+		r, ok2 := as.Rhs[0].(*ast.Ident)
+		return ok1 && ok2 && l.Name == "skip" && r.Name == "true"
+	}
+	var walk func(stmts []ast.Stmt, guard string)
+	walk = func(stmts []ast.Stmt, guard string) {
+		for _, st := range stmts {
+			if isSkip(st) {
+				skips = append(skips, guard)
+			}
+			switch t := st.(type) {
+			case *ast.AssignStmt:
+				for _, l := range t.Lhs {
+					if se, ok := l.(*ast.SelectorExpr); ok {
+						if id, ok := se.X.(*ast.Ident); ok && id.Name == "ipc" {
+							fields = append(fields, se.Sel.Name)
+						}
+					}
+				}
+			case *ast.IfStmt:
+				g := src(fs, t.Cond)
+				if guard != "always" {
+					g = guard + " && " + g
+				}
+				walk(t.Body.List, g)
+				if t.Else != nil {
+					if eb, ok := t.Else.(*ast.BlockStmt); ok {
+						walk(eb.List, "else of "+g)
+					} else {
+						walk([]ast.Stmt{t.Else}, "else of "+g)
+					}
+				}
+			case *ast.BlockStmt:
+				walk(t.List, guard)
+			case *ast.ForStmt:
+				walk(t.Body.List, guard+" (loop)")
+			case *ast.RangeStmt:
+				walk(t.Body.List, guard+" (loop)")
+			case *ast.SwitchStmt:
+				for _, c := range t.Body.List {
+					walk(c.(*ast.CaseClause).Body, guard+" (switch)")
+				}
+			}
+		}
+	}
+	walk(lit.Body.List, "always")
+	return
+}
 
 func die(f string, a ...any) {
 	fmt.Fprintf(os.Stderr, "facts_c10: "+f+"\n", a...)
@@ -185,6 +276,79 @@ func main() {
 	if first == "" {
 		die("initial nextFreeId literal not found in NewIdCounter")
 	}
+	// the point store -> index change stream: shard.go transform functions and the dispatcher
+	sfs, shf := parse(filepath.Join(*repo, "shard", "shard.go"))
+	insSkips, insFields := transformFacts(sfs, shf, "InsertPoints")
+	updSkips, updFields := transformFacts(sfs, shf, "UpdatePoints")
+	delSkips, delFields := transformFacts(sfs, shf, "DeletePoints")
+	dfs, df := parse(filepath.Join(*repo, "shard", "index", "dispatch.go"))
+	disp := funcDecl(df, "Dispatch")
+	if disp == nil {
+		die("func Dispatch not found in dispatch.go")
+	}
+	// inside Dispatch: `for propName, params := range im.indexSchema { … getOperation(dec, propName,
+	// change.PreviousData, change.NewData) … if op == opSkip { continue } … }`
+	var opArgs, dispSkips []string
+	rangeOver := ""
+	ast.Inspect(disp.Body, func(n ast.Node) bool {
+		rs, ok := n.(*ast.RangeStmt)
+		if !ok || rangeOver != "" {
+			return true
+		}
+		found := false
+		ast.Inspect(rs.Body, func(m ast.Node) bool {
+			if c, ok := m.(*ast.CallExpr); ok && sel(c.Fun) == "getOperation" {
+				found = true
+				opArgs = nil
+				for _, a := range c.Args {
+					opArgs = append(opArgs, src(dfs, a))
+				}
+			}
+			return true
+		})
+		if !found {
+			return true
+		}
+		rangeOver = src(dfs, rs.X)
+		if k, ok := rs.Key.(*ast.Ident); ok {
+			rangeOver = k.Name + " of " + rangeOver
+		}
+		for _, st := range rs.Body.List {
+			if is, ok := st.(*ast.IfStmt); ok {
+				for _, b := range is.Body.List {
+					if br, ok := b.(*ast.BranchStmt); ok && br.Tok == token.CONTINUE {
+						dispSkips = append(dispSkips, src(dfs, is.Cond))
+					}
+				}
+			}
+		}
+		return true
+	})
+	if rangeOver == "" {
+		die("Dispatch: no range loop calling getOperation found")
+	}
+	// getOperation: the case that yields opSkip
+	ufs, uf := parse(filepath.Join(*repo, "shard", "index", "utils.go"))
+	gop := funcDecl(uf, "getOperation")
+	if gop == nil {
+		die("func getOperation not found in utils.go")
+	}
+	var opCases []string
+	ast.Inspect(gop.Body, func(n ast.Node) bool {
+		cc, ok := n.(*ast.CaseClause)
+		if !ok || len(cc.List) != 1 {
+			return true
+		}
+		for _, st := range cc.Body {
+			if as, ok := st.(*ast.AssignStmt); ok && len(as.Lhs) == 1 && len(as.Rhs) == 1 && sel(as.Lhs[0]) == "op" {
+				opCases = append(opCases, src(ufs, cc.List[0])+" => "+sel(as.Rhs[0]))
+			}
+		}
+		return true
+	})
+	if len(opCases) == 0 {
+		die("getOperation: no `case …: op = …` found")
+	}
 	var b strings.Builder
 	b.WriteString("-- GENERATED by tools/facts_c10 from the repository working tree. DO NOT EDIT.\n")
 	b.WriteString("namespace Sema.Gen.FactsC10\n\n")
@@ -193,6 +357,10 @@ func main() {
 	fmt.Fprintf(&b, "/-- calls of `insertUpdateDelete` in source order -/\ndef phases : List String := %s\n\n", leanList(phases))
 	fmt.Fprintf(&b, "/-- calls of `removeInboundEdges` in source order -/\ndef removeInboundPhases : List String := %s\n\n", leanList(rphases))
 	fmt.Fprintf(&b, "/-- the two early exits of the result loop of `IndexVamana.Search`, in source order -/\ndef searchCuts : List String := %s\n\n", leanList(cuts))
+	fmt.Fprintf(&b, "/-- conditions under which the transform function of `InsertPoints` / `UpdatePoints` / `DeletePoints` sets\n`skip = true` (the batch element is withheld from every index), in source order -/\ndef insertSkips : List String := %s\ndef updateSkips : List String := %s\ndef deleteSkips : List String := %s\n\n", leanList(insSkips), leanList(updSkips), leanList(delSkips))
+	fmt.Fprintf(&b, "/-- fields of the `IndexPointChange` those transform functions assign, in source order -/\ndef insertChange : List String := %s\ndef updateChange : List String := %s\ndef deleteChange : List String := %s\n\n", leanList(insFields), leanList(updFields), leanList(delFields))
+	fmt.Fprintf(&b, "/-- `Dispatch`: what the loop calling `getOperation` ranges over, the arguments of that call, and the\nconditions of the `continue`s at the top level of the loop body -/\ndef dispatchRange : String := %q\ndef dispatchOperationArgs : List String := %s\ndef dispatchSkips : List String := %s\n\n", rangeOver, leanList(opArgs), leanList(dispSkips))
+	fmt.Fprintf(&b, "/-- `getOperation`: the cases of its switch, `condition => op` -/\ndef operationCases : List String := %s\n\n", leanList(opCases))
 	b.WriteString("end Sema.Gen.FactsC10\n")
 	if err := os.WriteFile(filepath.Join(*out, "FactsC10.lean"), []byte(b.String()), 0o644); err != nil {
 		die("%v", err)
